@@ -3,6 +3,7 @@
 -/
 import XonshVerif.Proofs.StringTiling
 import XonshVerif.Proofs.TokStructure
+import XonshVerif.Proofs.TokCover
 namespace XV.Tz
 open XV XV.Rx
 
@@ -88,5 +89,54 @@ example : (tokenize ⟨[], []⟩ indPats indSrc).err = none := by decide +kernel
 example : ((tokenize ⟨[], []⟩ indPats indSrc).toks.map (·.ty)) =
     [.NAME, .NEWLINE, .INDENT, .NAME, .NEWLINE, .INDENT, .NAME, .NEWLINE, .DEDENT, .DEDENT, .NAME, .NEWLINE, .ENDMARKER] := by decide +kernel
 example : depthAfter 0 ((tokenize ⟨[], []⟩ indPats indSrc).toks.take 7) = some 2 := by decide +kernel
+
+
+/-- every physical line but the last ends in a line feed -/
+theorem splitLines_nonLastEndNL : ∀ (src cur : List Nat), NonLastEndNL (splitLines src cur)
+  | [], [] => by intro i l h; simp [splitLines] at h
+  | [], c :: cur => by
+    intro i l h hlt
+    simp [splitLines] at hlt
+  | c :: cs, cur => by
+    intro i l h hlt
+    simp only [splitLines] at h hlt
+    split at h
+    · rename_i hc
+      rw [if_pos hc] at hlt
+      cases i with
+      | zero =>
+        simp only [List.getElem?_cons_zero] at h
+        injection h with h
+        rw [← h]; simp [hc]
+      | succ i =>
+        simp only [List.getElem?_cons_succ] at h
+        simp only [List.length_cons] at hlt
+        exact splitLines_nonLastEndNL cs [] i l h (by omega)
+    · rename_i hc
+      rw [if_neg hc] at hlt
+      exact splitLines_nonLastEndNL cs (c :: cur) i l h hlt
+
+/-- **tokens_are_source_slices.**  For every pattern set with progressing pseudo-token branches, every environment and every
+    text on which the tokenizer finishes: EVERY token other than the parts of an f-string (FSTRING_MIDDLE, FSTRING_END, the
+    brace operators the f-string scanner emits) has as its text exactly the source characters between its start and end
+    coordinates - names, numbers, operators, comments, whitespace, search paths, NL/NEWLINE, ERRORTOKEN, FSTRING_START, INDENT
+    (the indentation itself), STRING across any number of lines, and the empty DEDENT / implicit NEWLINE / ENDMARKER. -/
+theorem tokens_are_source_slices (E : Env) (P : Pats) (hP : PseudoProgress P) (src : List Nat)
+    (hfin : (tokenize E P src).err = none) :
+    ∀ t ∈ (tokenize E P src).toks, Covered t → t.str = srcText (splitLines src []) t.start t.stop := by
+  unfold tokenize at hfin ⊢
+  simp only [] at hfin ⊢
+  cases h : tokenizeLines E P ((splitLines src []).length + 2) (splitLines src []) TState.init [] with
+  | error e => rw [h] at hfin; simp at hfin
+  | ok ts =>
+    simp only []
+    exact tokenizeLines_cov (splitLines src []) (splitLines_nonLastEndNL src []) E P hP _ _ TState.init [] ts (between_init _)
+      (Or.inl ⟨rfl, rfl⟩) (by simp [TState.init]) (CovOK.nil _) h
+
+/-- Non-vacuity: in `a⏎ b⏎  c⏎d⏎` every token is covered, the INDENT tokens carry the indentation and the theorem's
+    equation is a real one for each of them. -/
+example : ((tokenize ⟨[], []⟩ indPats indSrc).toks.filter (fun t => t.ty = .INDENT)).map (fun t => (t.str, t.start, t.stop)) =
+    [([32], ⟨2, 0⟩, ⟨2, 1⟩), ([32, 32], ⟨3, 0⟩, ⟨3, 2⟩)] := by decide +kernel
+example : srcText (splitLines indSrc []) ⟨3, 0⟩ ⟨3, 2⟩ = [32, 32] := by decide +kernel
 
 end XV.Tz
